@@ -38,6 +38,15 @@ var SignatureHeaders = []string{
 	"Cookie",
 }
 
+// identityHeaders are asserted by the proxy from the authenticated session. Values
+// supplied by the client for these headers must never reach an upstream.
+var identityHeaders = []string{
+	"X-Forwarded-User",
+	"X-Forwarded-Email",
+	"X-Forwarded-Groups",
+	"X-Forwarded-Access-Token",
+}
+
 // Errors
 var (
 	ErrLifetimeExpired               = errors.New("user lifetime expired")
@@ -541,6 +550,13 @@ func (p *OAuthProxy) Proxy(rw http.ResponseWriter, req *http.Request) {
 	start := time.Now()
 	tags := []string{"action:proxy"}
 	var err error
+
+	// Identity headers are only ever set by the proxy itself (in Authenticate). Drop whatever
+	// the client sent so that whitelisted requests, and headers Authenticate does not set,
+	// cannot carry a client-chosen identity to the upstream.
+	for _, header := range identityHeaders {
+		req.Header.Del(header)
+	}
 
 	// If the request is explicitly whitelisted, we skip authentication
 	if p.IsWhitelistedRequest(req) {
